@@ -90,7 +90,7 @@ var props = []propCfg{
 			{Name: "TestLibraryPaths", Rapid: true, Quick: 4000, Thorough: 100000, ShardsQ: 4, ShardsT: 4},
 			{Name: "TestEndToEnd", Rapid: true, Quick: 96, Thorough: 1600, ShardsQ: 16, ShardsT: 16},
 		},
-		Rule:      "in-process: Go types mirroring fc's representation of records (exported and lower-case fields, generic, recursive), unions (interface + case structs), tuples and slices, 24 root types up to slice nesting 3; rapid draws a model tree, builds the Go value through a drawn construction path per slice (exact, nil, grown by append, spare capacity with foreign data in the hidden tail, middle of a larger array, empty suffix), and forms pairs (rebuilt copy by other paths | one place mutated | independent) and triples; frt.OpEqual/OpNotEqual are compared with reference equality on the model trees, both argument orders, plus reflexivity and transitivity. A second property compares the same contents produced by 13 different pkg/slice call paths. End to end: programs of the `equality` profile of the C01 generator (records with lower-case field names, = / <> on composite values, empty slices via slice.New and via library calls) are transpiled, compiled and run and their printed booleans compared with the reference evaluator. Non-trivial = a value containing a slice or a lower-case-field record (end to end: a program comparing composite values); distinct = hash of (type, model trees incl. paths).",
+		Rule:      "in-process: Go types mirroring fc's representation of records (exported and lower-case fields, generic, recursive), unions (interface + case structs), tuples and slices, 24 root types up to slice nesting 3; rapid draws a model tree, builds the Go value through a drawn construction path per slice (exact, nil, grown by append, spare capacity with foreign data in the hidden tail, middle of a larger array, empty suffix), and forms pairs (rebuilt copy by other paths | one place mutated | independent | sharing memory: b is a with one of its slices replaced by a's very slice value, or by a re-slice of it without its last / first element, as slice.PopLast / slice.Tail return) and triples; frt.OpEqual/OpNotEqual are compared with reference equality on the model trees, both argument orders, plus reflexivity and transitivity. A second property compares the same contents produced by 13 different pkg/slice call paths. End to end: programs of the `equality` profile of the C01 generator (records with lower-case field names, = / <> on composite values, empty slices via slice.New and via library calls) are transpiled, compiled and run and their printed booleans compared with the reference evaluator. Non-trivial = a value containing a slice or a lower-case-field record (end to end: a program comparing composite values); distinct = hash of (type, model trees incl. paths).",
 		Technique: "property-based testing (rapid) against reference structural equality on model trees; metamorphic (same contents via different construction paths)",
 		Assumptions: []string{
 			"first-order values only (no functions, no floats, no dicts), as the property states",
@@ -138,7 +138,7 @@ var props = []propCfg{
 			{Name: "TestMatchContexts", Rapid: true, Quick: 3200, Thorough: 64000, ShardsQ: 16, ShardsT: 16},
 			{Name: "TestMatchSequences", Rapid: true, Quick: 3200, Thorough: 64000, ShardsQ: 16, ShardsT: 16},
 		},
-		Rule:      "exhaustive part: unions with n = 1..4 cases x payload mask (2^n) x every non-empty ordered subset of arms x arm form per arm (payload case: bind-and-use / `_` / no pattern; no-payload case: bare) x with/without trailing default = 21,576 candidates on every run; n = 5 with fixed arm forms sampled 1-in-7 in quick and all 405,120 candidates in thorough. Expected-reject candidates cost one fc run each (sentinel gen file in place beforehand); expected-accept candidates share files of up to 60 functions and are re-decided alone on any surprise. Sampled part (rapid): the match placed in a let right-hand side, either if branch, a first/last arm of an outer match, a lambda with annotated parameter, a local function, on a let-bound value; over plain, generic, and-group and other-file union declarations. Sequences (rapid): 2..4 matches on the SAME union in one file (each in its own function and context, usually accepted ones first, the last one optionally nested in an arm of an exhaustive match on the same union): the file is rejected iff some match must be, and the diagnostic names a case the first offending match leaves uncovered - the decision for a match must not depend on the matches processed before it. Oracle: reject <=> (no default and a case missing); reject = non-zero exit, every KaseN named in the diagnostic is really uncovered (and at least one is named), sentinel gen file untouched; accept = exit 0, gen file written, the emitted type switch lists exactly the source arms in order plus the user default or the never-reached panic. Non-trivial = >= 2 arms not in declaration order, or a missing case that is not the last declared one; distinct = hash of the candidate.",
+		Rule:      "exhaustive part: unions with n = 1..4 cases x payload mask (2^n) x every non-empty ordered subset of arms x arm form per arm (payload case: bind-and-use / `_` / no pattern; no-payload case: bare) x with/without trailing default = 21,576 candidates on every run; n = 5 with fixed arm forms sampled 1-in-7 in quick and all 405,120 candidates in thorough. Expected-reject candidates cost one fc run each (sentinel gen file in place beforehand); expected-accept candidates share files of up to 60 functions and are re-decided alone on any surprise. Sampled part (rapid): the match placed in a let right-hand side, either if branch, a first/last arm of an outer match, an arm of an outer union or string match that continues with its own `| _ ->` arm at the outer column, a lambda with annotated parameter, a local function, on a let-bound value; over plain, generic, and-group and other-file union declarations. Sequences (rapid): 2..4 matches on the SAME union in one file (each in its own function and context, usually accepted ones first, the last one optionally nested in an arm of an exhaustive match on the same union): the file is rejected iff some match must be, and the diagnostic names a case the first offending match leaves uncovered - the decision for a match must not depend on the matches processed before it. Oracle: reject <=> (no default and a case missing); reject = non-zero exit, every KaseN named in the diagnostic is really uncovered (and at least one is named), sentinel gen file untouched; accept = exit 0, gen file written, the emitted type switch lists exactly the source arms in order plus the user default or the never-reached panic. Non-trivial = >= 2 arms not in declaration order, or a missing case that is not the last declared one; distinct = hash of the candidate.",
 		Technique: "exhaustive enumeration of the bounded domain + property-based testing (rapid) for nesting contexts, against the property's own biconditional as oracle",
 		Assumptions: []string{
 			"the matched value has a declared union type where the match is written (annotated parameter / let-bound from one), as section 3 of DESIGN.md derives from the documents",
@@ -204,7 +204,7 @@ var props = []propCfg{
 			{Name: "TestKnown", ShardsQ: 1, ShardsT: 1},
 			{Name: "TestPrograms", Rapid: true, Quick: 320, Thorough: 6400, ShardsQ: 16, ShardsT: 16},
 		},
-		Rule:      "type-directed generation (rapid) of whole programs of the documented subset: shared record/union declarations (incl. self-referential ones), a prelude with the probe function and generic helpers, 1..8 units (helper functions, a recursive template, an entry function, one printing line in main), bodies built from lets, destructuring, function-valued lets, local functions (closures), lambdas, partial application of user / library / constructor functions, pipes and pipe chains, if/elif/else as statement and value, union match (all arm forms, default, any order) and string match (variable arm / default), records (permuted and qualified literals, field access, _.Field), tuples, slices, the operators, the four string literal forms and standard-library calls; effect probes (trace \"tN\" e) on about a fifth of the sub-expressions and on both sides of && / ||, both if branches and match arms. Oracle: fc must accept, go build must succeed, the binary must exit 0 and its stdout must equal, byte for byte, the trace of the independent reference evaluator (strict, left-to-right, lexical scoping). Plus the hand-kept corpus corpus/seeds/*.fo with hand-derived expected output. Non-trivial = the expected output contains at least one probe line and the program uses at least one of partial application / closure capture / match / if-as-value / pipe / lambda; distinct = hash of the source text.",
+		Rule:      "type-directed generation (rapid) of whole programs of the documented subset: shared record/union declarations (incl. self-referential ones), a prelude with the probe function and generic helpers, 1..8 units (helper functions, a recursive template, an entry function, one printing line in main), bodies built from lets, destructuring, function-valued lets, local functions (closures), lambdas, partial application of user / library / constructor functions, pipes and pipe chains, if/elif/else as statement and value, union match (all arm forms, default, any order) and string match (variable arm / default), records (permuted and qualified literals, field access, _.Field), tuples, slices, the operators, the four string literal forms (plain ones with \\t \\n \\\" \\\\ escapes) and standard-library calls incl. buf.Buffer episodes (writes direct, piped, under an if, through a partial application or a closure handed to slice.Iter) and dict.Dict episodes (dict.New with explicit type arguments / dict.ToDict, overwriting Adds, TryFind / ContainsKey / Item incl. absent keys, Keys / Values / KVs only through slice.Sort or slice.Length); one let in four reuses the name of a variable of an enclosing block (shadowing); mixed && / || chains of 3..4 probed operands grouped to either side; a one-line if without else as last statement of a then-block that is followed by else; effect probes (trace \"tN\" e) on about a fifth of the sub-expressions and on both sides of && / ||, both if branches and match arms. Oracle: fc must accept, go build must succeed, the binary must exit 0 and its stdout must equal, byte for byte, the trace of the independent reference evaluator (strict, left-to-right, lexical scoping). Plus the hand-kept corpus corpus/seeds/*.fo with hand-derived expected output. Non-trivial = the expected output contains at least one probe line and the program uses at least one of partial application / closure capture / match / if-as-value / pipe / lambda; distinct = hash of the source text.",
 		Technique: "property-based testing (rapid) with a type-directed program generator, differential against an independent reference evaluator; compile-and-run of the emitted Go",
 		Assumptions: []string{
 			"programs stay inside the documented subset written down in DESIGN.md section 3 (each restriction with its source); steering counts are reported in the samples",
@@ -222,7 +222,7 @@ var props = []propCfg{
 			{Name: "TestLayouts", Rapid: true, Quick: 640, Thorough: 16000, ShardsQ: 16, ShardsT: 16},
 			{Name: "TestDedent", Rapid: true, Quick: 640, Thorough: 8000, ShardsQ: 8, ShardsT: 16},
 		},
-		Rule:      "a generated program of the full profile (1..3 units) is printed once in the canonical layout and three times with a random layout plan whose every decision is an independent rapid draw inside the layout grammar of the statement: body indentation 1..9 per block, blank lines, trailing spaces, own-line // and /* */ comments (also spanning lines) at any indentation, trailing comments, one-line vs multi-line if, a let right-hand side or a match arm body on the same or the next line, a line break before any |> (aligned or block form), one-line vs multi-line record declarations, indentation of union cases and match arms; all must yield byte-identical gen_prog.go (one evaluation = one re-laid-out text). Converse direction (TestDedent): hand-templated nested blocks (if-only, else branch, match arm, local function) with a marked statement written at the outer column and at the inner column: the two must give different Go, and re-indenting the inner block by another amount must give the same Go again. Non-trivial (layouts) = the plan deviates from canonical in >= 3 kinds of choice and the program reaches nesting depth >= 3; all dedent cases are non-trivial; distinct = hash of the re-laid-out text.",
+		Rule:      "a generated program of the full profile (1..3 units) is printed once in the canonical layout and three times with a random layout plan whose every decision is an independent rapid draw inside the layout grammar of the statement: body indentation 1..9 per block, blank lines, trailing spaces, own-line // and /* */ comments (also spanning lines, and texts such as /*/ note */, /***/, /* // */, // /* not open) at any indentation, trailing comments, one-line vs multi-line if, a let right-hand side or a match arm body on the same or the next line, a line break before any |> (aligned or block form), one-line vs multi-line record declarations, indentation of union cases and match arms; all must yield byte-identical gen_prog.go (one evaluation = one re-laid-out text). Converse direction (TestDedent): hand-templated nested blocks (if-only, else branch, match arm, local function) with a marked statement written at the outer column and at the inner column: the two must give different Go, and re-indenting the inner block by another amount must give the same Go again. Non-trivial (layouts) = the plan deviates from canonical in >= 3 kinds of choice and the program reaches nesting depth >= 3; all dedent cases are non-trivial; distinct = hash of the re-laid-out text.",
 		Technique: "metamorphic property-based testing (rapid): same abstract program, different concrete layout => identical output; and its converse",
 		Assumptions: []string{
 			"layouts stay inside the grammar the property lists (no tabs, code never follows a multi-line comment on its last line)",
@@ -269,7 +269,7 @@ var props = []propCfg{
 			{Name: "TestKnown", ShardsQ: 1, ShardsT: 1},
 			{Name: "TestTinyfo", Rapid: true, Quick: 240, Thorough: 4800, ShardsQ: 16, ShardsT: 16},
 		},
-		Rule:      "the program generator restricted to the tinyfo profile: every parameter annotated, typed probe functions (traceI/traceS/traceB), no lambdas / fun, no * and /, no interpolation or raw strings, pairs only, non-generic non-recursive records and unions, union match (all arm forms, default, any order), if/elif/else and if-only, destructuring, pipes, partial application of user, library and constructor functions, function-valued lets, recursion with a result annotation, a let's right-hand side on the let line, slice literals parenthesised when they are arguments, no empty slices, library access through an inline package_info block in tinyfo's dialect. Oracle: three-way - tinyfo's Go compiles and its stdout equals the reference evaluator's trace and equals the stdout of fc's translation of the same source. Non-trivial = the expected output contains a probe line and the program uses partial application / match / if-else / pipe / a function-valued let; distinct = hash of the source.",
+		Rule:      "the program generator restricted to the tinyfo profile: every parameter annotated, typed probe functions (traceI/traceS/traceB), no lambdas / fun, no * and /, no interpolation or raw strings (plain string literals include \\t \\n \\\" \\\\ escapes), pairs only, non-generic non-recursive records and unions, union match (all arm forms, default, any order), if/elif/else and if-only, destructuring, pipes, partial application of user, library and constructor functions, function-valued lets, recursion with a result annotation, a let's right-hand side on the let line, slice literals parenthesised when they are arguments, no empty slices, library access through an inline package_info block in tinyfo's dialect. Oracle: three-way - tinyfo's Go compiles and its stdout equals the reference evaluator's trace and equals the stdout of fc's translation of the same source. Non-trivial = the expected output contains a probe line and the program uses partial application / match / if-else / pipe / a function-valued let; distinct = hash of the source.",
 		Technique: "property-based testing (rapid) with the C01 program generator restricted to a profile; three-way differential (tinyfo, reference evaluator, fc), compile-and-run",
 		Assumptions: []string{
 			"the subset is the one tinyfo was observed to accept (DESIGN.md C17): recursion needs a result annotation, a generic library function is not stored partially applied, slice literals are not bare arguments",
@@ -302,7 +302,7 @@ var props = []propCfg{
 			{Name: "TestForeignCalls", Rapid: true, Quick: 160, Thorough: 3200, ShardsQ: 16, ShardsT: 16},
 			{Name: "TestRecursiveDeclarations", Rapid: true, Quick: 160, Thorough: 3200, ShardsQ: 16, ShardsT: 16},
 		},
-		Rule:      "(i) declarations: 2..5 random record / union declarations (generic or not, upper- and lower-case type and field names, field and payload types over int/string/bool/slices/2- and 3-tuples/earlier records and unions/type parameters), and per used type a Folang function with a unit parameter that builds a value, a top-level variable, a function showing a value, a function with unit result, an identity function, plus functions with 2..4 parameters; together with a GENERATED GO CLIENT in the same package that uses them only through the documented names: struct literals R{F: v} / R[int]{...} and field reads, New_U_C(v), the New_U_C variable, New_U_C[T](v) / New_U_C[T]() for generic unions, a type switch over U_C reading .Value, frt.Tuple2/3 literals with E0..E2, calls f(a, b) in parameter order, no parameter for (), no result for unit, package variables. (ii) foreign calls: random package_info blocks for package _ (implemented in the client file) and for a named sibling Go package, with 1..4-ary signatures over int/string/bool/[]int/opaque types/type parameters and generated Go implementations that print their arguments in order and return a value computed from them; Folang call sites in every arity from 1 to full: direct, through a let-bound partial application, as a pipe stage, as a higher-order argument, with explicit type arguments. (iii) self-referential and `and`-group declarations: 1..3 groups of 1..3 records / unions whose fields and payloads mention the type being defined or another (earlier or later) member of the group below a drawn type constructor ([]X, dict.Dict<string, X>, []Bx<X>, Op<X>, int*[]X, Op<int>*Op<X>, Bx<Bx<X>>, X itself where Go allows it, ...); the Go client states the documented Go type of every such field / payload in a function signature (func chk(x Ty3) dict.Dict[string, Ty2] { return x.F3a }). Oracle: the whole package (gen_decl.go + client.go [+ sibling package]) compiles and its stdout equals what the documented representation and the foreign functions' own printing predict. Non-trivial = a generic declaration used from Go, or a foreign function of arity >= 3 applied partially; distinct = hash of the case.",
+		Rule:      "(i) declarations: 2..5 random record / union declarations (generic or not, upper- and lower-case type and field names, field and payload types over int/string/bool/slices/2- and 3-tuples/earlier records and unions/type parameters), and per used type a Folang function with a unit parameter that builds a value, a top-level variable (read by the Go client through its address; a quarter of the uses add a top-level variable holding a lambda, which the client wraps with a counting function before a Folang function calls it), a function showing a value, a function with unit result, an identity function, plus functions with 2..4 parameters; together with a GENERATED GO CLIENT in the same package that uses them only through the documented names: struct literals R{F: v} / R[int]{...} and field reads, New_U_C(v), the New_U_C variable, New_U_C[T](v) / New_U_C[T]() for generic unions, a type switch over U_C reading .Value, frt.Tuple2/3 literals with E0..E2, calls f(a, b) in parameter order, no parameter for (), no result for unit, package variables. (ii) foreign calls: random package_info blocks for package _ (implemented in the client file) and for a named sibling Go package, with 1..4-ary signatures over int/string/bool/[]int/opaque types/type parameters and generated Go implementations that print their arguments in order and return a value computed from them; Folang call sites in every arity from 1 to full: direct, through a let-bound partial application, as a pipe stage, as a higher-order argument, with explicit type arguments; a quarter of the non-generic functions get a type parameter that occurs only in the result ([]R, zero values printed), which Go cannot infer and which is therefore instantiated explicitly in every call form incl. the bare reference `x |> F<int>`. (iii) self-referential and `and`-group declarations: 1..3 groups of 1..3 records / unions whose fields and payloads mention the type being defined or another (earlier or later) member of the group below a drawn type constructor ([]X, dict.Dict<string, X>, []Bx<X>, Op<X>, int*[]X, Op<int>*Op<X>, Bx<Bx<X>>, X itself where Go allows it, ...); the Go client states the documented Go type of every such field / payload in a function signature (func chk(x Ty3) dict.Dict[string, Ty2] { return x.F3a }). Oracle: the whole package (gen_decl.go + client.go [+ sibling package]) compiles and its stdout equals what the documented representation and the foreign functions' own printing predict. Non-trivial = a generic declaration used from Go, or a foreign function of arity >= 3 applied partially; distinct = hash of the case.",
 		Technique: "property-based testing (rapid) with generated Go client code and generated Go implementations: differential between the documented representation and what fc emits, decided by compiling and running",
 		Assumptions: []string{
 			"the documented representation is the one in the property statement (docs/specs/union.md, note.md, tutorial 4)",
@@ -318,7 +318,7 @@ var props = []propCfg{
 			{Name: "TestKnown", ShardsQ: 1, ShardsT: 1},
 			{Name: "TestSignatures", Rapid: true, Quick: 480, Thorough: 9600, ShardsQ: 16, ShardsT: 16},
 		},
-		Rule:      "programs of the inference profile: fixed declarations (a record, a generic record, a union, a generic union) and 3..9 top-level functions of 1..4 parameters (base types, slices, tuples, records, unions, generic instantiations, function-typed parameters) whose bodies are built forward from the constructs the documents promise inference for: arithmetic / comparison with an operand of known type, calls of library functions with concrete and with generic signatures, lambdas passed to typed higher-order functions, tuples, slice literals, destructuring, record / generic record / union / generic union construction, field access on a known record, calls of earlier (possibly generic) user functions, a function-typed parameter applied once, pipes (also into partial applications), if/else. Each parameter annotation is erased with probability 2/3 while generating, a result annotation is kept with probability 1/5. Oracle: (a) the func declaration found with go/parser in gen_prog.go (type parameter list with constraint any, parameter and result types) equals the Go mapping of the principal type computed by an independent Hindley-Milner inference (occurs check, n-ary function types, fresh instantiation per reference, monomorphic let) under exactly the annotations kept; (b) a second variant in which every further annotation is erased that the reference inference shows to leave all principal types unchanged yields byte-identical gen_prog.go; (c) the emitted package type-checks with go build together with a generated Go file that instantiates each generic function at two different type-argument lists. One evaluation = one function signature compared. Non-trivial = a program with at least one erased annotation or one surviving type parameter (reported per program); distinct = hash of the source.",
+		Rule:      "programs of the inference profile: fixed declarations (a record, a generic record, a union, a generic union) and 3..9 top-level functions of 1..4 parameters (base types, slices, tuples, records, unions, generic instantiations, function-typed parameters) whose bodies are built forward from the constructs the documents promise inference for: arithmetic / comparison with an operand of known type, calls of library functions with concrete and with generic signatures, lambdas passed to typed higher-order functions, tuples, slice literals, destructuring, record / generic record / union / generic union construction, field access on a known record, calls of earlier (possibly generic) user functions, a function-typed parameter applied once, pipes (also into partial applications), if/else. Two further families: staged unification (2..3 un-annotated parameters of one structured type used in separate lets that fix only the outer shape, one of them pinned, unified by a later =, if/else, slice literal or slice.Append) and fields of a parameter determined earlier (a record parameter, usually un-annotated, whose type the first statement fixes through a reader call, a comparison with a literal or a shared slice literal; later lets read its fields without adding a relation - let xs = p.HS, let (a, b) = p.HP - and use them in arithmetic, destructuring and slice.Map with an un-annotated function parameter). Each parameter annotation is erased with probability 2/3 while generating, a result annotation is kept with probability 1/5. Oracle: (a) the func declaration found with go/parser in gen_prog.go (type parameter list with constraint any, parameter and result types) equals the Go mapping of the principal type computed by an independent Hindley-Milner inference (occurs check, n-ary function types, fresh instantiation per reference, monomorphic let) under exactly the annotations kept; (b) a second variant in which every further annotation is erased that the reference inference shows to leave all principal types unchanged yields byte-identical gen_prog.go; (c) the emitted package type-checks with go build together with a generated Go file that instantiates each generic function at two different type-argument lists. One evaluation = one function signature compared. Non-trivial = a program with at least one erased annotation or one surviving type parameter (reported per program); distinct = hash of the source.",
 		Technique: "property-based testing (rapid) against an independent reference type inference (principal types) + metamorphic annotation erasure + Go type-check of the emitted package",
 		Assumptions: []string{
 			"only constructs for which the documentation promises inference are generated (DESIGN.md section 3); arithmetic / ordering always has an operand whose type is fixed where it is written; a function-typed parameter is applied at most once",
